@@ -22,6 +22,9 @@ ASSUMPTIONS = [
     'encoding.to_bytes on binary arguments is modelled (lib_to_bytes) and compared on payloads that read as hexadecimal text',
     'Transaction.parse(raw).outputs: the wire framing of the transaction is property C01; here the raw transaction is written by the '
     'adapter byte by byte and the output it yields is compared with Output(lock_script=) of the model',
+    'the model is a function of what a key object IS (network, witness type, multisig flag, public key): it has no argument for what '
+    'was done with the object before (output_of_hd_key_history_free; guard: no look at the uncompressed address); the harness replays '
+    'histories on the real object and asks the model and the oracle without them',
 ]
 RULE = ('exhaustive: networks x {p2pkh,p2sh,witness v0..16} x payload lengths {20,32} (+2..40 for v1+) x {zero, ff, random} payloads, '
         'every creation path (address string, Address.parse object, Address(hashed_data=/data=) object, HDKey in six construction forms '
@@ -29,7 +32,11 @@ RULE = ('exhaustive: networks x {p2pkh,p2sh,witness v0..16} x payload lengths {2
         'encoding= / witver= hints) through Output, Transaction.add_output, Transaction.parse of a raw transaction and '
         'Transaction.raw()+parse(); adversarial payloads (about 100 per length: DER-signature, public-key, script-template, opcode, '
         'push-header, number and text shapes) for every standard type in both directions; every ordered pair of networks for foreign '
-        'addresses; malformed script stream; non-trivial = the implementation returns an output (not an error); distinct by request')
+        'addresses; malformed script stream; histories on ONE object: an HDKey / Key that was looked at before (address() in each of 24 '
+        'script type x encoding combinations, prefix, address_obj, WIFs with other witness type, hash, dictionary, public() copy, child '
+        'derivation, network_change, an earlier output or script made from it; 1-4 steps), then handed to Output / add_output / raw+parse '
+        'or its hash160 written into a script; any object or byte argument already used for an earlier output of the same or another '
+        'network; non-trivial = the implementation returns an output (not an error); distinct by request')
 
 # ---------------------------------------------------------------- independent reference codecs (BIP13 / BIP173 / BIP350)
 B58 = '123456789ABCDEFGHJKLMNPQRSTUVWXYZabcdefghijkmnopqrstuvwxyz'
@@ -386,6 +393,7 @@ def gen_expect(t):
 
 def expectation(t):
     """None = the property says nothing about this request; 'ERR' = must be refused; tuple = exact answer"""
+    t = hd_norm(t)
     e = expectation_direct(t)
     if t[2] == 'rt' and isinstance(e, tuple):
         # the output after Transaction.raw() / parse(): only its script travelled; the parsed output must report the standard
@@ -447,7 +455,7 @@ def expectation_direct(t):
 def prop_check(c, out):
     if out.startswith('CRASH') or out == 'BADREQ':
         return 'unexpected answer %r' % out[:120]
-    t = c.req.split(' ')
+    t = toks(c)
     e = expectation(t)
     if e is None:
         return None
@@ -516,8 +524,57 @@ def flags():
             ''.join('1' if st.get(k) == 'fixed' else '0' for k in KNOWN_IDS[3:]))
 
 
+def toks(c):
+    """the request's tokens without the reuse marker"""
+    t = c.req.split(' ')
+    return t[:-1] if t[-1] in EARLIER else t
+
+
+def hd_history(t):
+    """steps of the history an `hd` request replays on the key object before the output is built from it ([] = fresh key)"""
+    return t[11].split(',') if t[0] == 'hd' and len(t) > 11 and t[11] not in EARLIER else []
+
+
+UNCOMP_STEPS = ('au', 'cu')
+EARLIER = ('@2', '@f')     # last token: the same argument objects were used for an earlier output (same / another network)
+
+
+def hd_norm(t):
+    """the history-free request that says what the key object IS when the output is built from it: the history token is
+    dropped; a network_change step ('n:<network>') makes it a key of that network; via 'ks' (the script written from the key's
+    hash160 property, read as an output) is the output as its script reports it, i.e. what via 'rt' delivers"""
+    if t[-1] in EARLIER:
+        return hd_norm(t[:-1])
+    if t[0] == 'key' and len(t) > 9:
+        return t[:9]
+    h = hd_history(t)
+    if not h:
+        return t
+    u = list(t[:11])
+    for s in h:
+        if s.startswith('n:'):
+            u[3] = s[2:]
+    if u[2] == 'ks':
+        u[2] = 'rt'
+    return u
+
+
 def model_req(c):
-    return 'F %s %s' % (flags(), c.req)
+    """The model is a FUNCTION of the key (network, witness type, multisig flag, public key): it has no history argument,
+    so the request goes to it without the history token (Properties/C05.v output_of_hd_key_history_free)."""
+    t = toks(c)
+    if hd_history(t):
+        hist = t[11]
+        t = hd_norm(t)
+        if any(s in UNCOMP_STEPS for s in hist.split(',')) and unhx(t[6]) == G1:
+            # finding hd_key_left_uncompressed (generated only when recorded): the key object now stands for the 65-byte
+            # encoding of its point; the model is asked about THAT key so that it stays faithful inside the known class
+            hh, ss = h160(G1U), hashlib.sha256(G1U).digest()
+            t[7], t[8] = hx(hh), hx(ss)
+            t[9] = orc([(G1U, hh), (b'\x00\x14' + hh, h160(b'\x00\x14' + hh)), (b'\x00\x20' + ss, h160(b'\x00\x20' + ss))])
+    else:
+        t = hd_norm(t)
+    return 'F %s %s' % (flags(), ' '.join(t))
 
 
 def _addr_of_req(t):
@@ -529,7 +586,7 @@ def _addr_of_req(t):
 
 
 def _cls_witver(c, io, mo):
-    t = c.req.split(' ')
+    t = toks(c)
     if t[0] in ('str', 'parse'):
         a = untok(t[4])
         return a[0] == 'bech' and a[2] >= 1 and (t[0] == 'parse' or not (a[2] == 1 and len(a[3]) == 32))
@@ -541,7 +598,7 @@ def _cls_witver(c, io, mo):
 
 
 def _cls_netobj(c, io, mo):
-    t = c.req.split(' ')
+    t = hd_norm(toks(c))
     if t[0] == 'parse':
         # the object's network: the one asked for, else the first of the address's networks by priority (table order on ties)
         a = untok(t[4])
@@ -555,7 +612,7 @@ def _cls_netobj(c, io, mo):
 
 
 def _cls_p2shobj(c, io, mo):
-    t = c.req.split(' ')
+    t = toks(c)
     return t[0] == 'aobj' and t[4] in ('p2sh_p2wpkh', 'p2sh_p2wsh')
 
 
@@ -593,19 +650,26 @@ def req_byte_strings(t):
 
 def _cls_addrpk(c, io, mo):
     """an address string next to a public key, no hash and no script: the address is not examined"""
-    t = c.req.split(' ')
+    t = toks(c)
     if t[0] != 'gen':
         return False
     a, _, h, pub, lock, _, _, _ = hints_of(t)
     return a is not None and bool(pub) and not h and not lock
 
 
+def _cls_hduncomp(c, io, mo):
+    """an HD key object that was asked for its uncompressed address before: Key.address(compressed=False) stores the answer
+    to `compressed` in the key (self.compressed = False), every later use of the object is about the 65-byte encoding"""
+    return any(s in UNCOMP_STEPS for s in hd_history(toks(c)))
+
+
 def _cls_hex(c, io, mo):
-    return any(is_hexlike(b) for b in req_byte_strings(c.req.split(' ')))
+    return any(is_hexlike(b) for b in req_byte_strings(toks(c)))
 
 
 _PRED = {'witver_ge2_script': _cls_witver, 'foreign_network_address_object': _cls_netobj,
-         'p2sh_segwit_address_object': _cls_p2shobj, 'ascii_hex_payload': _cls_hex, 'address_with_public_key': _cls_addrpk}
+         'p2sh_segwit_address_object': _cls_p2shobj, 'ascii_hex_payload': _cls_hex, 'address_with_public_key': _cls_addrpk,
+         'hd_key_left_uncompressed': _cls_hduncomp}
 
 
 class _Known(dict):
@@ -624,7 +688,7 @@ def same(c, io, mo):
         return True
     if io == mo:
         return True
-    t = c.req.split(' ')
+    t = toks(c)
     if t[0] in ('str', 'parse'):
         a = untok(t[4])
         if a[0] == 'b58' and len(a[2]) != 20 and 'ERR' in (io, mo):
@@ -770,7 +834,19 @@ def gen_cases(rng, tier):
 
     gen_adversarial(rng, big, names, add, HEX_ON)
     gen_objects(rng, big, names, add)
+    gen_histories(rng, big, names, add, recorded('hd_key_left_uncompressed'))
+    _key_histories(rng, names, add)
     gen_hints(rng, big, names, add, recorded('address_with_public_key'))
+    # 10. the same argument objects used twice: a sample of the requests so far (every kind that hands OBJECTS or byte
+    # strings to Output), repeated with the marker '@2' / '@f' = an earlier output was built from the very same objects
+    pool = {}
+    for c in cs:
+        k = c.req.split(' ', 1)[0]
+        if k in ('parse', 'aobj', 'adata', 'hd', 'key', 'pk', 'hash'):
+            pool.setdefault(k, []).append(c.req)
+    for k in sorted(pool):
+        for r in rng.sample(pool[k], min(len(pool[k]), 1500 if big else 300)):
+            add(k, r.split(' ', 1)[1], rng.choice(EARLIER))
 
     def dests(full):
         """destinations: p2pkh/p2sh 20, witness v0 20/32, v1..16 20/32; with full also 2..40 for v1+"""
@@ -988,6 +1064,68 @@ def gen_objects(rng, big, names, add):
                     for wv in ((0, 1, 2) if st == 'p2tr' else (0,)):
                         for N, via in ((A, 'out'), (A, 'rt')) + (((rng.choice(others), 'out'),) if e == '-' else ()):
                             add('adata', N, via, A, st, e, wv, hx(data), hx(hh), hx(ss), o)
+
+
+HIST_ADDRESS = tuple('a:%s:%s' % (st, e) for st in ('-', 'p2pkh', 'p2sh', 'p2wpkh', 'p2wsh', 'p2sh_p2wpkh', 'p2sh_p2wsh', 'p2tr')
+                     for e in ('-', 'base58', 'bech32'))
+HIST_OTHER = ('ao', 'px', 'w', 'wp', 'wk', 'wx', 'h', 'pb', 'd', 'o', 'of', 's', 'p', 'c')
+HIST_KEY = ('ao', 'w', 'h', 'pb', 'd', 's', 'p', 'a:-:-', 'a:p2pkh:base58')
+
+
+def gen_histories(rng, big, names, add, uncomp_on):
+    """9. HISTORIES on one key object: the key is first LOOKED AT (its address in another script type / encoding / prefix,
+    its address object, WIFs, hash, dictionary, public copy; an output or a script was already made from it), then the
+    output is built from that same object.  The expectation is the one of a fresh key: what a key stands for is decided by
+    its network, witness type and multisig flag, never by which of its forms was shown before."""
+    pubs = (G1, G2, G3)
+    forms = [f for f in HD_FORMS]
+    vias = ('out', 'add', 'rt')
+
+    def one(A, wt, ms, hist, N=None, pub=None, form=None, via=None):
+        pub = pub or rng.choice(pubs)
+        hh, ss = h160(pub), hashlib.sha256(pub).digest()
+        o = orc([(pub, hh), (b'\x00\x14' + hh, h160(b'\x00\x14' + hh)), (b'\x00\x20' + ss, h160(b'\x00\x20' + ss))])
+        add('hd', N or A, via or rng.choice(vias), A, wt, ms, hx(pub), hx(hh), hx(ss), o, form or rng.choice(forms), ','.join(hist))
+
+    for A in names:
+        others = [x for x in names if x != A]
+        for wt in ('legacy', 'segwit', 'p2sh-segwit'):
+            for ms in (0, 1):
+                for _ in range(3 if big else 1):
+                    for st in HIST_ADDRESS:
+                        one(A, wt, ms, [st])
+                        one(A, wt, ms, [st, rng.choice(HIST_OTHER)])
+                    for st in HIST_OTHER:
+                        one(A, wt, ms, [st])
+                    for _ in range(40 if big else 10):
+                        hist = [rng.choice(HIST_ADDRESS if rng.random() < 0.6 else HIST_OTHER) for _ in range(rng.randrange(2, 5))]
+                        one(A, wt, ms, hist)
+                    one(A, wt, ms, [rng.choice(HIST_ADDRESS)], N=rng.choice(others))
+                    # the key moves to another network after (and before) it was looked at: it is a key of THAT network now
+                    for _ in range(3):
+                        B = rng.choice(others)
+                        hist = [rng.choice(HIST_ADDRESS), 'n:' + B] + [rng.choice(HIST_ADDRESS + HIST_OTHER) for _ in range(rng.randrange(0, 2))]
+                        one(A, wt, ms, hist, N=B)
+                    one(A, wt, ms, ['ao', 'n:' + others[0]], N=A)
+                    if not ms and wt != 'p2sh-segwit':
+                        for _ in range(4):
+                            one(A, wt, ms, [rng.choice(HIST_ADDRESS + HIST_OTHER) for _ in range(rng.randrange(1, 4))], via='ks')
+                if uncomp_on and wt != 'segwit':
+                    one(A, wt, ms, [rng.choice(UNCOMP_STEPS), 'h'], pub=G1, form='pubkc', via=('ks' if wt == 'legacy' and not ms else 'out'))
+                    for st in UNCOMP_STEPS:
+                        one(A, wt, ms, [st], pub=G1, form=rng.choice(forms[1:]))
+                        one(A, wt, ms, [rng.choice(HIST_ADDRESS), st, 'p'], pub=G1, form='priv64')
+
+
+def _key_histories(rng, names, add):
+    for A in names:
+        others = [x for x in names if x != A]
+        for pub in (G1, G1U, G2):
+            hh, ss = h160(pub), hashlib.sha256(pub).digest()
+            for form in ('kpub', 'kprv'):
+                for N, via in ((A, 'out'), (A, 'add'), (A, 'rt'), (rng.choice(others), 'out')):
+                    hist = [rng.choice(HIST_KEY) for _ in range(rng.randrange(1, 4))]
+                    add('key', N, via, A, form, hx(pub), hx(hh), hx(ss), '-', ','.join(hist))
 
 
 def gen_hints(rng, big, names, add, addrpk_on):
